@@ -15,7 +15,7 @@ BUDGET = {'quick': 300, 'thorough': 1800}
 SOURCES = ['src/DTAIDistanceC/DTAIDistanceC/dd_dtw_openmp.c', 'src/DTAIDistanceC/DTAIDistanceC/dd_dtw.c', 'src/dtaidistance/dtw.py']
 FUNCTIONS = ['dd_dtw_openmp.c dtw_distances_prepare', 'dtw_distances_ptrs_parallel, _ndim_ptrs_parallel, _matrix_parallel, _ndim_matrix_parallel, '
              '_matrices_parallel, _ndim_matrices_parallel and their .omp_outlined. bodies', 'dd_dtw.c dtw_distance (re-entrancy monitor)',
-             'dtw.distance_matrix (multiprocessing branches), dtw._distance_matrix_idxs']
+             'dtw.distance_matrix(parallel=True, use_c=False) (multiprocessing branch of the Python engine), dtw._distance_matrix_idxs']
 BOUNDS = {'quick': {'n': '1..4', 'blocks': 'all (rb<re<=n, cb<ce<=n, triu T/F) + no block'},
           'thorough': {'n': '1..6', 'blocks': 'all + no block'}}
 OUTSIDE = ['real thread execution, libgomp / libomp', 'real multiprocessing processes and pickling',
